@@ -161,12 +161,20 @@ pub fn exec(case: &Case, ctx: &mut Ctx, rec: &mut Case) -> Hist {
                     tree::set_sentinel(&env.root);
                 }
             }
-            Op::CrashImage { step, torn } => {
+            Op::CrashImage { step, torn, writing } => {
                 if last_snaps.len() < 2 {
                     continue;
                 }
                 // state before action `step`; the action itself may be interrupted half-way
-                let i = (*step).min(last_snaps.len() - 2);
+                let mut i = (*step).min(last_snaps.len() - 2);
+                if *writing {
+                    let w: Vec<usize> = (0..last_snaps.len() - 1)
+                        .filter(|k| tree::snap_hash(&last_snaps[*k]) != tree::snap_hash(&last_snaps[*k + 1]))
+                        .collect();
+                    if !w.is_empty() {
+                        i = w[*step % w.len()];
+                    }
+                }
                 let pre = &last_snaps[i];
                 let post = &last_snaps[i + 1];
                 let mut img = pre.clone();
@@ -533,6 +541,7 @@ pub fn gen(prop: &str, seed: u64, index: u64, _tier: Tier) -> Case {
                     ops.push(Op::CrashImage {
                         step: rng.below(40),
                         torn: rng.next(),
+                        writing: rng.chance(2, 3),
                     });
                     variant = "crash-build".into();
                 }
@@ -541,6 +550,7 @@ pub fn gen(prop: &str, seed: u64, index: u64, _tier: Tier) -> Case {
                     ops.push(Op::CrashImage {
                         step: rng.below(40),
                         torn: rng.next(),
+                        writing: rng.chance(2, 3),
                     });
                     ops.push(run_op(&mut rng, ModeS::Needed, &inputs, recursive, tn, "needed-after-crash"));
                     variant = "crash-needed-build".into();
@@ -656,6 +666,7 @@ pub fn gen(prop: &str, seed: u64, index: u64, _tier: Tier) -> Case {
                     ops.push(Op::CrashImage {
                         step: rng.below(40),
                         torn: rng.next(),
+                        writing: rng.chance(2, 3),
                     });
                 }
                 if rng.chance(1, 4) {
@@ -827,7 +838,7 @@ pub fn run(case: &Case, ctx: &mut Ctx) -> CaseOutcome {
                 Op::Sentinel => "sentinel".into(),
                 Op::Checkpoint => "checkpoint".into(),
                 Op::Rollback => "rollback".into(),
-                Op::CrashImage{step, ..} => format!("crash-image at step {step}"),
+                Op::CrashImage{step, writing, ..} => format!("crash-image at {} {step}", if *writing { "writing action" } else { "step" }),
             }).collect::<Vec<_>>(),
             "verdicts": h.runs.iter().map(|r| format!("{}={}", r.label, r.sim.verdict.short())).collect::<Vec<_>>(),
         }));
